@@ -52,7 +52,7 @@ def boundary_sizes(mtu, tier):
 def scenario(params, ch):
     api, size, mtu, fates, blackout, other, order, latency, window = params
     sender, method = APIS[api]
-    mon = DeliveryMonitor()
+    mon = DeliveryMonitor(flag_delivery=False)
     w = World(order=order, latency=latency, chooser=ch, monitors=[mon], mtu=mtu)
     try:
         w.run_until_connected()
@@ -63,7 +63,13 @@ def scenario(params, ch):
         if e is not None:
             ch.flag("send-raises", "%s raises %s" % (api, type(e).__name__), "%s(len %d) raised %r" % (api, size, e))
             return
-        if other:
+        if other == "burst":
+            # the message leaves alone in its datagram, then the same sender bursts 300 tiny messages:
+            # a retransmission of the guaranteed message arrives behind >256 newer message numbers
+            w.run(1)
+            for k in range(300):
+                app_send(w, mon, sender, b"%c" % (k % 251), "none")
+        elif other:
             # unrelated traffic in the same and the opposite direction
             app_send(w, mon, sender, payload(2, 30), "none")
             app_send(w, mon, "s" if sender == "c" else "c", payload(3, 30), "best")
@@ -130,10 +136,12 @@ def params_list(tier):
     for mtu, size in reps:
         for api in ("c.send_guaranteed", "s.send_guaranteed"):
             for b in blackouts:
-                for other in (False, True):
+                for other in (False, True, "burst"):
                     cfgs = [("cs", 1)] if tier == "quick" else [("cs", 1), ("sc", 0), ("sc", 1), ("cs", 0)]
                     for order, latency in cfgs:
                         if tier == "quick" and other and b is not None:
+                            continue
+                        if other == "burst" and (size > 2600 or (tier == "quick" and mtu != 1500)):
                             continue
                         out.append((api, size, mtu, fates, b, other, order, latency, 8))
     if tier == "thorough":
